@@ -32,12 +32,15 @@ RENDERINGS = [
     ('2015-08-30T07:06:00.000-05:30', T0),
     ('2015-08-31T02:36:00.999999999+14:00', T0),
     ('20150830T123600,5Z', T0),
+    ('20150830T122600-0010', T0),                  # offsets whose hour field is 00: the sign must come from the sign character
+    ('2015-08-30T12:59:00+00:23', T0),
 ]
+QUICK_RENDERINGS = (0, 1, 2, 3, 6, 7)
 
 
 def shapes(tier, seed):
     out = [('window', 'sym-date'), ('window', 'month-end'), ('window', 'year-end'), ('window', 'leap-day')]
-    for i in range(len(RENDERINGS) if tier == 'thorough' else 4):
+    for i in (range(len(RENDERINGS)) if tier == 'thorough' else QUICK_RENDERINGS):
         out.append(('pipeline', i))
     return out
 
@@ -307,8 +310,8 @@ def describe(f):
 def bounds(tier):
     return ('validate_signature: request instant = every civil date-time of years 2-9998 (also constrained to month ends, year ends, 28/29 Feb/1 Mar), '
             'server instant = request + delta with delta in [-1300 s, +1300 s], both nanosecond parts symbolic (0..999999999); pipeline: %d textual '
-            'renderings (basic/extended, Z, +01:00, -05:30, +14:00, fractions) of one really signed request with the server clock symbolic in the same '
-            'range; Kani K3: compiled chrono checked_add/sub_signed and ordering on six 200 000 s intervals' % (len(RENDERINGS) if tier == 'thorough' else 4))
+            'renderings (basic/extended, Z, +01:00, -05:30, +14:00, -00:10, +00:23, fractions) of one really signed request with the server clock symbolic in the same '
+            'range; Kani K3: compiled chrono checked_add/sub_signed and ordering on six 200 000 s intervals' % (len(RENDERINGS) if tier == 'thorough' else len(QUICK_RENDERINGS)))
 
 
 OUTSIDE = ('server clocks within 15 minutes of chrono\'s MIN/MAX (the code falls back to a zero-width window there); |delta| > 1300 s in the MIRSE part '
